@@ -47,7 +47,7 @@ Definition nats (l : list Z) : list nat := map Z.to_nat l.
 Definition zs (l : list nat) : list Z := map Z.of_nat l.
 Definition ecode (e : gerr) : Z :=
   match e with ValueError => 1 | IndexError => 2 | TypeError => 3 | AssertionError => 4 | ZeroDivisionError => 5
-             | InvalidDimension => 6 | InvalidShape => 7 | NotModelled => 8 end%Z.
+             | InvalidDimension => 6 | InvalidShape => 7 | NotModelled => 8 | OverflowError => 9 end%Z.
 Definition err (e : gerr) : outc := (ecode e, [], []).
 Definition it (l : list itm) (k : nat) : itm := nth k l ([], []).
 Definition zat (x : itm) (k : nat) : Z := nth k (fst x) 0%Z.
@@ -134,11 +134,10 @@ Definition ans_grid (l : list itm) : list outc :=
         | inl e => err e
         | inr (Pp, Oo) => (0%Z, zs (nd_shape Pp) ++ zs (nd_shape Oo), ungroup3 (nd_data Pp) ++ concat (map flm (nd_data Oo)))
         end ] ++
-      (if (zat (it l 3) 1 =? 1)%Z then []      (* resample not compared: see RESTRICTIONS in the harness *)
-       else match grid_resample NumF g (pix (zat (it l 3) 0) (snd (it l 3))) with
-            | inl e => [err e]
-            | inr g2 => enc_grid g2
-            end)
+      (match grid_resample NumF g (pix (zat (it l 3) 0) (snd (it l 3))) with
+       | inl e => [err e]
+       | inr g2 => enc_grid g2
+       end)
   end.
 Definition ans_centred (l : list itm) : list outc :=
   let a := it l 0 in
@@ -179,9 +178,11 @@ Definition ans_cs (l : list itm) : list outc :=
         (0%Z, [bz (c_isclose NumF c c0 (fat o 0) (fat o 1)); bz (c_isclose NumF c0 c (fat o 0) (fat o 1))], []) ] ++
       (if (zat o 0 =? 0)%Z then []
        else let P := mkP (it l 3) in let Og := mkP (it l 4) in
-            let '(x, y, z) := c_convert_from_gcs_pairwise NumF c P Og in
             [ encPts (c_convert_from_gcs NumF c P); encPts (c_convert_to_gcs NumF c P) ] ++
-            (if (zat o 1 =? 0)%Z then [] else [ encF x; encF y; encF z ]))
+            (match c_convert_from_gcs_pairwise NumF c P Og with
+             | inr (x, y, z) => [ encF x; encF y; encF z ]
+             | inl e => [ err e ]      (* NotModelled outside 1-d origins / points with >= 1 dimension *)
+             end))
   end.
 (* tag 11: distance_pairwise on Points objects *)
 Fixpoint chunks (fuel c : nat) (l : list float) : list (list float) :=
@@ -226,8 +227,9 @@ CORR = {
     "dist": "distance_pairwise_points vs distance_pairwise(points1, points2, out=, block_size=, numthreads=)",
 }
 ECODE = {"ValueError": 1, "IndexError": 2, "TypeError": 3, "AssertionError": 4, "ZeroDivisionError": 5,
-         "InvalidDimension": 6, "InvalidShape": 7}
+         "InvalidDimension": 6, "InvalidShape": 7, "OverflowError": 9}
 ENAME = {v: k for k, v in ECODE.items()}
+NOT_MODELLED = 8        # ecode NotModelled: the model's marker for inputs outside the part of a function it describes
 
 
 # ---------------------------------------------------------------------------------------------------------------
@@ -502,18 +504,16 @@ def lib_grid(G, g, b6, pixel, bounds, pixel2):
     c, op, _ = attempt(gr.to_oriented_points)
     out.append(err(c) if c else (0, [int(n) for n in op.points.shape] + [int(n) for n in op.orientations.coords.shape[:-2]],
                                  fl(op.points.coords) + fl(op.orientations.coords)))
-    # RESTRICTION 1: Grid.resample hands numpy scalars (xvect[0] ...) to Grid.__init__; a zero pixel size on a non-degenerate
-    # axis then gives inf and round(inf) raises OverflowError, where the model (written for Python floats) says
-    # ZeroDivisionError.  Such resamplings are run but not compared.
+    # Grid.resample hands numpy scalars (xvect[0] ...) to Grid.__init__; a zero pixel size on a non-degenerate axis then gives
+    # inf and round(inf) raises OverflowError (the constructor called with Python floats raises ZeroDivisionError): the model's
+    # grid_resample has its own error kind for that case, and these resamplings are compared like every other one.
     px2 = [float(pixel2)] * 3 if isinstance(pixel2, (float, int)) else [float(v) for v in pixel2]
     vects = (gr.xvect, gr.yvect, gr.zvect)
-    skip = len(px2) == 3 and all(len(v) for v in vects) and any(px2[k] == 0 and vects[k][0] != vects[k][-1] for k in range(3))
+    zero_px = len(px2) == 3 and all(len(v) for v in vects) and any(px2[k] == 0 and vects[k][0] != vects[k][-1] for k in range(3))
     c, g2, _, w2 = with_warnings(lambda: gr.resample(pixel2))
-    if skip:
-        items[3] = ([items[3][0][0], 1], items[3][1])
-        desc["resample_compared"] = False
-    else:
-        out += [err(c)] if c else enc_grid(g2, w2)
+    desc["resample_zero_pixel_on_nondegenerate_axis"] = bool(zero_px)
+    desc["resample_outcome"] = ENAME.get(c, c) if c else "grid"
+    out += [err(c)] if c else enc_grid(g2, w2)
     return items, out, desc
 
 
@@ -580,11 +580,11 @@ def finish_cs(g, items, out, desc, cs, c0state, P, O, atol, rtol):
     out.append((0, [int(bool(cs.isclose(c0, atol, rtol))), int(bool(c0.isclose(cs, rtol=rtol, atol=atol)))], []))
     final = fl(cs.origin) + fl(cs.i_hat) + fl(cs.j_hat)
     doconv = small_dyadic(final) and small_dyadic(fl(P[1])) and small_dyadic(fl(O[1]))
-    # RESTRICTION 2: convert_from_gcs_pairwise is compared for 1-d `origins` only: the library computes
-    # points_cs.x[..., newaxis] - origins.x[newaxis, ...], which is the outer difference of shape points.shape + origins.shape
-    # only when origins is 1-d (a 0-d origins gives points.shape + (1,), an n-d one is broadcast against the LAST axis), while
-    # the model's outer_sub claims points.shape ++ origins.shape for every origins; and for a 0-d `points_gcs` the library
-    # answers shape (1, m) (x[..., newaxis] of a 0-d array is (1,)) where the model says (m,).
+    # convert_from_gcs_pairwise: the library computes points_cs.x[..., newaxis] - origins.x[newaxis, ...], which is the outer
+    # difference of shape points.shape + origins.shape only when origins is 1-d and points_gcs has at least one dimension (a 0-d
+    # origins gives points.shape + (1,), an n-d one is broadcast against the LAST axis, a 0-d points_gcs gives (1, m)).  The
+    # model describes exactly that domain and answers the marker NotModelled outside it: there the library is run (it must
+    # return arrays, not raise) and the model's answer is compared with the marker, no values are compared.
     pairwise = doconv and len(O[0]) == 1 and len(P[0]) >= 1
     items[5] = ([1 if doconv else 0, 1 if pairwise else 0], [float(atol), float(rtol)])
     if doconv:
@@ -595,6 +595,10 @@ def finish_cs(g, items, out, desc, cs, c0state, P, O, atol, rtol):
         if pairwise:
             x, y, z = cs.convert_from_gcs_pairwise(Pp, Oo)
             out += [enc_f(x), enc_f(y), enc_f(z)]
+        else:
+            code, _, _ = attempt(lambda: cs.convert_from_gcs_pairwise(Pp, Oo))
+            desc["pairwise_library_outcome_outside_domain"] = code      # 0 (arrays) or a broadcast ValueError
+            out.append(err(NOT_MODELLED))
     desc["convert_compared"] = doconv
     desc["pairwise_compared"] = pairwise
     return items, out, desc
@@ -810,7 +814,11 @@ def build_cases(chk, arim, rng, quick):
                                ((0, 1, 0, 2, 5, 5), (0.5, 1, 1, 1), nob, 1.0), ((0, 1, 0, 2, 5, 5), 0.0, nob, 1.0),
                                ((0, 1, 0, 2, 5, 5), (0.5, 0.0, 1), nob, 1.0), ((0, 1, 0, 2, 5, 5), (0.5, 1, 0.0), nob, (1.0, 0.0, 1.0)),
                                ((0, 1, 0, 0, 0, 0), -2.0, nob, 1.0), ((0, 1, 0, 0, 0, 0), -0.4, nob, 1.0),
-                               ((0, 1, 0, 2, 0, 0), (-0.4, 0.0), nob, 1.0), ((0, 0.3, 0, 0, -1, 1), (0.1, 0.0, 0.4), nob, (0.1, 1.0))]:
+                               ((0, 1, 0, 2, 0, 0), (-0.4, 0.0), nob, 1.0), ((0, 0.3, 0, 0, -1, 1), (0.1, 0.0, 0.4), nob, (0.1, 1.0)),
+                               # resample with a zero pixel size: OverflowError on a non-degenerate axis (numpy scalars), accepted on
+                               # the degenerate one, and the ValueError of an earlier axis comes first
+                               ((0, 1, 0, 2, 5, 5), (0.5, 1, 0.25), nob, 0.0), ((0, 1, 0, 2, 5, 5), (0.5, 1, 0.25), nob, (0.5, 1.0, 0.0)),
+                               ((0, 1, 0, 2, 5, 5), (0.5, 1, 0.25), nob, (-0.4, 0.0, 1.0))]:
         add("grid", "fixed", lib_grid(G, g, tuple(float(v) for v in b6), pixel, box, p2))
 
     def rand_bounds(exact):
@@ -987,6 +995,10 @@ def build_cases(chk, arim, rng, quick):
              A("translate", (1,), (2.0,)), A("translate", (1, 3), (1.0, 2, 3))], "fixed",
             P=((2, 1), np.array([[[1.0, 2, 3]], [[4, 5, 6]]])), O=((3,), np.eye(3)))
     cs_case(V(1, 1, 1), V(0, 1, 0), V(0, 0, 1), [A("translate", (3,), (1e-9, 0, 0))], "fixed", atol=1e-8, rtol=0.0)
+    # convert_from_gcs_pairwise outside the modelled domain (0-d origins; 2-d origins; 0-d points): the model must answer NotModelled
+    cs_case(V(1, 1, 1), V(0, 1, 0), V(0, 0, 1), [], "fixed", P=((2,), np.array([[1.0, 2, 3], [4, 5, 6]])), O=((), np.array([1.0, 0, 0])))
+    cs_case(V(1, 1, 1), V(0, 1, 0), V(0, 0, 1), [], "fixed", P=((2,), np.array([[1.0, 2, 3], [4, 5, 6]])), O=((2, 1), np.array([[[1.0, 0, 0]], [[0, 1, 0]]])))
+    cs_case(V(1, 1, 1), V(0, 1, 0), V(0, 0, 1), [], "fixed", P=((), np.array([1.0, 2, 3])), O=((1,), np.array([[1.0, 0, 0]])))
     for _ in range(50 * K):
         stream = G.pick(["history", "history", "history", "history", "ctor-err-origin", "ctor-err-i", "ctor-err-j", "ctor-two-fault"])
         o, i, j = rand_vec("origin"), rand_vec("unit"), rand_vec("unit")
@@ -1062,6 +1074,10 @@ def run(chk, arim, rng, quick):
     for f, _, _, _, _ in cases:
         fams[f] = fams.get(f, 0) + 1
     cov["per_family"] = fams
+    cov["resample_zero_pixel_compared"] = sum(1 for c in cases if c[4].get("resample_zero_pixel_on_nondegenerate_axis"))
+    cov["resample_overflow_error"] = sum(1 for c in cases if c[4].get("resample_outcome") == "OverflowError")
+    cov["pairwise_values_compared"] = sum(1 for c in cases if c[4].get("pairwise_compared"))
+    cov["pairwise_outside_domain_marker_compared"] = sum(1 for c in cases if "pairwise_library_outcome_outside_domain" in c[4])
     shown = {}
     for k in bad:
         f, stream, items, exp, desc = cases[k]
@@ -1078,6 +1094,6 @@ def run(chk, arim, rng, quick):
                       f"on {CORR[f].split(' vs ')[0][:80]}...",
                       {"correspondence": CORR[f], "family": f, "stream": stream, "input": desc, "arim": lib, "model": model,
                        "encoding": "(kind 0 = value | 1 ValueError 2 IndexError 3 TypeError 4 AssertionError 5 ZeroDivisionError "
-                                   "6 InvalidDimension 7 InvalidShape, ints, floats) per observable, in the order of the correspondence"},
+                                   "6 InvalidDimension 7 InvalidShape 8 NotModelled (model only) 9 OverflowError, ints, floats) per observable, in the order of the correspondence"},
                       failing_input_found=False)
     return len(cases)
